@@ -140,15 +140,18 @@ func cmdRun(args []string) int {
 			continue
 		}
 		anyHarness = true
-		ec := gosym.ExploreConfig{Workers: *workers, MaxPaths: 60000, TimeoutMs: 60000, Verbose: *verbose}
+		ec := gosym.ExploreConfig{Workers: *workers, MaxPaths: 150000, TimeoutMs: 60000, Verbose: *verbose}
 		if tierN == 1 {
-			ec.MaxPaths = 400000
+			ec.MaxPaths = 2000000
 			ec.TimeoutMs = 300000
 		}
 		if *maxPaths > 0 {
 			ec.MaxPaths = *maxPaths
 		}
-		ec.Opt = gosym.Options{MaxSteps: 2000000, LoopBound: 64, DelayBound: 1 + tierN, Seed: seed, Tier: tierN, CrossPct: 2 + 98*tierN}
+		ec.Opt = gosym.Options{MaxSteps: 2000000, LoopBound: 64, DelayBound: 1, Seed: seed, Tier: tierN, CrossPct: 2 + 98*tierN}
+		if d, err := strconv.Atoi(os.Getenv("VF_DELAY")); err == nil {
+			ec.Opt.DelayBound = d // development override
+		}
 		sums, st := gosym.Explore(p, entries, ec)
 		ev.addSolver(st)
 		for _, s := range sums {
